@@ -154,20 +154,25 @@ impl RayCast for HeightField {
             /*
              * Find the next cell to cast the ray on.
              */
-            let (toi_x, right) = if ray.dir.x > 0.0 {
+            // NOTE: a negative scale factor mirrors the field: its columns (rows) then run towards
+            //       -x (-z), so the direction of the walk in index space is the sign of `dir * scale`.
+            let dir_j = ray.dir.x * self.scale().x;
+            let dir_i = ray.dir.z * self.scale().z;
+
+            let (toi_x, right) = if dir_j > 0.0 {
                 let x = self.x_at(cell.1 + 1);
                 ((x - ray.origin.x) / ray.dir.x, true)
-            } else if ray.dir.x < 0.0 {
+            } else if dir_j < 0.0 {
                 let x = self.x_at(cell.1);
                 ((x - ray.origin.x) / ray.dir.x, false)
             } else {
                 (Real::max_value(), false)
             };
 
-            let (toi_z, down) = if ray.dir.z > 0.0 {
+            let (toi_z, down) = if dir_i > 0.0 {
                 let z = self.z_at(cell.0 + 1);
                 ((z - ray.origin.z) / ray.dir.z, true)
-            } else if ray.dir.z < 0.0 {
+            } else if dir_i < 0.0 {
                 let z = self.z_at(cell.0);
                 ((z - ray.origin.z) / ray.dir.z, false)
             } else {
